@@ -16,7 +16,7 @@ Grammars as data (JSON-ready, same shape as in JsgfSem.tla):
   item = ["t",w] | ["q",w] | ["r",name] | ["n"] | ["v"] | ["g",alts] | ["o",alts] | ["k",item] | ["p",item]
        | ["x",item]
 """
-import functools, itertools, json, os, random
+import functools, itertools, json, os, random, re
 from vlib import sut, tlc, tracecheck, runner
 
 SPEC = os.path.join(os.path.dirname(os.path.dirname(os.path.abspath(__file__))), "specs", "jsgf")
@@ -667,6 +667,10 @@ def zoo():
                                        ["g", A([t("go")], [t("two"), t("to")])],
                                        ["k", ["g", A([["o", A([t("and")])], t("ten")])]]])),
                            ("t", 0, A([t("hello")], [t("bye")]))])),
+        # a rule the USER names like the names the compiler generates for groups (g00000, g00001, ...): defined before
+        # the group that would take the name, and after it
+        ("gen-name-before", grammar([("g00001", 0, A([t("a")])), ("s", 1, A([["g", A([t("b")], [t("c")])], r("g00001")]))])),
+        ("gen-name-after", grammar([("s", 1, A([["g", A([t("b")], [t("c")])], r("g00000")])), ("g00000", 0, A([t("a")]))])),
         ("no-public-1", grammar([("s", 0, A([t("a")]))])),
         ("no-public-2", grammar([("s", 0, A([t("a")])), ("t", 0, A([t("b")]))])),
     ]
@@ -685,6 +689,14 @@ def violation_key(case, ev):
         return "norm:weights-of-a-choice-point-do-not-sum-to-one"
     if ev["e"] == "TopRule":
         return "refuse:undefined-start-rule"
+    gen = [i for i, r in enumerate(case.g["rules"]) if re.fullmatch(r"g\d{5}", r[0])]
+    if gen:
+        # which came first in the text: the grammar's own rule of that name, or the rule whose group takes the name
+        name = case.g["rules"][gen[0]][0]
+        users = [i for i, r in enumerate(case.g["rules"]) if json.dumps(["r", name]) in json.dumps(r[2])]
+        if users and gen[0] < min(users):
+            return "lang:generated-group-name-taken-by-a-user-rule"
+        return "lang:user-rule-named-like-a-generated-group"
     if ev["refused"]:
         if "\n;" in case.text and (not ev["parsed"] or ev["via"] in ("read", "decoder")):
             return "parse:newline-before-semicolon"
@@ -729,6 +741,12 @@ WHAT = {
                                  "ignored at top level: a partial grammar with a different language is returned",
     "refuse:embedded-recursion-group": "recursion that ends a group/optional/closure/sub-rule which is itself followed "
                                        "by something is taken for right recursion and compiled into a loop",
+    "lang:generated-group-name-taken-by-a-user-rule":
+        "a group is given a generated name (g00001, ...) that a rule of the grammar defined EARLIER already has; "
+        "references to the group reach that rule",
+    "lang:user-rule-named-like-a-generated-group":
+        "a rule the grammar itself names like the names the compiler generates for groups (g00000, g00001, ...) and a "
+        "group end up under one name: references to one reach the other",
     "refuse:undefined-start-rule": "decoder_set_jsgf_string with the toprule parameter naming a rule that does not exist "
                                    "compiles some other rule instead of refusing",
     "refuse:no-public-rule-read-string": "jsgf_read_string compiles the last rule of the hash table when no rule is public",
